@@ -268,6 +268,9 @@ def path_common_bands(path):
     return sorted(cur), union
 
 
+EDGE_MODES = [0.0, 12.5e9, 1e9, 1e6, -1e6]
+
+
 def edge_spectrum(common, union, variant):
     """channels on, inside, across and outside every edge of the common bands; different type per position"""
     chans = []
@@ -278,13 +281,16 @@ def edge_spectrum(common, union, variant):
             chans.append(dict(f=f, baud=b, slot=s, label=label, dp=0.5 * (len(chans) % 3), tx_osnr=38.0 + len(chans) % 4,
                               power_dbm=-1.0 * (len(chans) % 3)))
     t0 = variant % 3
+    # how the outermost channels sit on the band edges: slot exactly on the edge; across it by one 12.5 GHz step, by 1 GHz or
+    # by 1 MHz (outside, however little: removed); 1 MHz inside (kept)
+    mode = (variant // 3) % len(EDGE_MODES)
+    over = EDGE_MODES[mode]
     for lo, hi in common:
         b0, s0 = TYPES[t0]
-        add(lo + s0 / 2, t0, 'on_lo')                         # slot starts exactly at the band start
+        add(lo + s0 / 2 - over, t0, 'on_lo' if over == 0 else ('across_lo' if over > 0 else 'just_inside_lo'))
         add(lo + s0 / 2 + 2 * s0, (t0 + 1) % 3, 'inside_lo')
-        add(hi - s0 / 2, t0, 'on_hi')                         # slot ends exactly at the band end
+        add(hi - s0 / 2 + over, t0, 'on_hi' if over == 0 else ('across_hi' if over > 0 else 'just_inside_hi'))
         add(hi - s0 / 2 - 3 * s0, (t0 + 2) % 3, 'inside_hi')
-        add(lo - s0 / 2 + 12.5e9, t0, 'across_lo') if variant % 2 else add(hi + s0 / 2 - 12.5e9, t0, 'across_hi')
         add((lo + hi) / 2, (t0 + 1) % 3, 'middle')
     for lo, hi in union:
         add(lo - 200e9, 0, 'outside_below')
@@ -370,7 +376,7 @@ def run_path(case):
               transitions += len(rec.steps)
               first = rec.steps[0]['pre']
               exp_f = [x['f'] for x in kept]
-              if not np.allclose(sorted(first['f'].tolist()), exp_f, rtol=0, atol=1.0) or len(first['f']) != len(exp_f):
+              if len(first['f']) != len(exp_f) or not np.allclose(sorted(first['f'].tolist()), exp_f, rtol=0, atol=1.0):
                   got = first['f'].tolist()
                   missing = [x['label'] for x in kept if not any(abs(x['f'] - g) < 1 for g in got)]
                   extra = [g for g in got if not any(abs(x['f'] - g) < 1 for x in kept)]
@@ -425,6 +431,10 @@ def run_path(case):
             tags['filtered-some-kept-some'] = 1
         if any(x['label'] in ('on_lo', 'on_hi') for x in kept):
             tags['band-edge-channel-kept'] = 1
+        if any(x['label'].startswith('across_') for x in spec) and not any(x['label'].startswith('across_') for x in kept):
+            tags['across-edge-channel-expected-out'] = 1
+        if any(x['label'].startswith('just_inside_') for x in kept):
+            tags['just-inside-edge-channel-kept'] = 1
         if len(common) >= 2:
             tags['multi-band-path'] = 1
         if len(common) >= 3:
@@ -481,7 +491,7 @@ def main(rep, tier, seed):
     cases = [dict(kind='construct', name=n, chans=[list(x) for x in ch], valid=v)
              for n, ch, v in carrier_lists(deep=True, deeper=tier == 'thorough')]
     n1 = len(cases)
-    variants = range(6)
+    variants = range(3 * len(EDGE_MODES))
     for net in NETS:
         cases.append(dict(kind='path', net=net, spectrum='uniform', variant=0))
         for v in variants:
@@ -503,5 +513,6 @@ def main(rep, tier, seed):
                        'Non-trivial: some channels filtered and some kept, a band-edge channel kept, multi-band path.')
     rep.assumptions += ['amplifier bands read from the built elements', 'band edges inclusive (slot may touch the band limit)']
     for k in ('construct-valid', 'construct-invalid', 'filtered-some-kept-some', 'band-edge-channel-kept', 'multi-band-path',
+              'across-edge-channel-expected-out', 'just-inside-edge-channel-kept',
               'three-band-path'):
         rep.require(rep.tags.get(k, 0) >= 1, f'{k} never observed')
